@@ -68,7 +68,7 @@ func genRoman(t *core.Tape) roman.Number {
 	case 1:
 		return roman.Number(t.Choose(40))
 	case 2:
-		return roman.Number(4000 + t.Choose(96000))
+		return roman.Number(4000 + t.Choose(396000)) // up to 400 M: longer than any default input limit
 	case 3:
 		return roman.Number([...]int{4, 9, 14, 40, 49, 90, 99, 400, 444, 499, 900, 999, 1994, 3888, 3999}[t.Choose(15)])
 	}
